@@ -177,7 +177,7 @@ func checkTimeHeap(r *Reporter, p *Prog) {
 		if ok {
 			if _, found := f.reach(Point{pops[0].B, pops[0].I + 1}, &searchOpts{AvoidNode: func(n ast.Node) bool {
 				return heapOp("Push")(n) || totalWrite(token.SUB_ASSIGN)(n)
-			}}, func(pt Point, atExit bool) bool { return atExit || (pt == pops[0]) }); found {
+			}}, func(pt Point, atExit bool) bool { return atExit || f.At(pt, pops[0]) }); found {
 				ok = false
 			}
 		}
@@ -245,14 +245,56 @@ func checkRandomMap(r *Reporter, p *Prog) {
 			r.Pass("pair/randommap", pkg+".RandomMap.Set", f.P.posStr(f.Body.Pos()), "new key: map entry with keyIndex = previous size + key appended; existing key: value replaced only")
 		}
 	}
-	if s, fd := srcOf(p, pkg, "RandomMap", "Delete"); fd == nil {
+	if f := p.CFGOf(pkg, "RandomMap", "Delete"); f == nil {
 		r.Unresolved("pair/randommap", pkg+".RandomMap.Delete", "method not found")
 	} else {
-		ok := hasAll(s, "movedKeyIndex:=(len(r.keys)-1)", "movedKey:=r.keys[movedKeyIndex]", "movedEntry.keyIndex=oldKeyIndex", "r.keys[oldKeyIndex]=movedKey", "r.keys=r.keys[:(len(r.keys)-1)]", "r.rawMap.Delete(key)", "oldKeyIndex:=entry.keyIndex")
-		if ok {
-			r.Pass("pair/randommap", pkg+".RandomMap.Delete", p.posStr(fd.Pos()), "swap-last: moved entry gets the hole's index, the hole gets the moved key, slice truncated, map entry deleted")
+		// swap-last removal, judged on resolved values (temporaries and helpers looked through):
+		//  (a) the back-index of the entry of the LAST key is set to the deleted entry's index,
+		//  (b) the slot at the deleted entry's index receives the last key,
+		//  (c) the key slice is cut by one, (d) the map entry is deleted.
+		info := p.Pkg(pkg).TypesInfo
+		lastKey := func(k string) bool { return strings.HasSuffix(k, ".keys[(len(") == false && strings.Contains(k, ".keys[(len(") && strings.Contains(k, ".keys)-1)]") }
+		var okA, okB, okC, okD bool
+		var seen []string
+		for _, b := range f.G.Blocks {
+			if !b.Live {
+				continue
+			}
+			for i, nd := range b.Nodes {
+				pt := Point{b, i}
+				switch x := nd.(type) {
+				case *ast.AssignStmt:
+					if len(x.Lhs) != 1 || len(x.Rhs) != 1 {
+						continue
+					}
+					lhs, rhs := f.KeyAt(x.Lhs[0], pt), f.KeyAt(x.Rhs[0], pt)
+					seen = append(seen, lhs+" = "+rhs)
+					switch {
+					case strings.HasSuffix(lhs, ".keyIndex") && fieldSel(info, x.Lhs[0], "keyIndex"):
+						// <entry of last key>.keyIndex = <deleted entry>.keyIndex
+						if strings.Contains(lhs, ".rawMap.Get(") && lastKey(lhs) && strings.HasSuffix(rhs, ".rawMap.Get(key).keyIndex") {
+							okA = true
+						}
+					case strings.Contains(lhs, ".keys[") && strings.HasSuffix(lhs, ".rawMap.Get(key).keyIndex]"):
+						if lastKey(rhs) {
+							okB = true
+						}
+					case strings.HasSuffix(lhs, ".keys") && strings.Contains(rhs, ".keys[:(len(") && strings.HasSuffix(rhs, ".keys)-1)]"):
+						okC = true
+					}
+				}
+				inspectNoLit(nd, func(n ast.Node) bool {
+					if cl, ok := n.(*ast.CallExpr); ok && strings.HasSuffix(exprKey(cl.Fun), ".rawMap.Delete") && len(cl.Args) == 1 && f.KeyAt(cl.Args[0], pt) == "key" {
+						okD = true
+					}
+					return true
+				})
+			}
+		}
+		if okA && okB && okC && okD {
+			r.Pass("pair/randommap", pkg+".RandomMap.Delete", f.P.posStr(f.Body.Pos()), "swap-last: moved entry gets the hole's index, the hole gets the moved key, slice truncated, map entry deleted")
 		} else {
-			r.Fail("pair/randommap", pkg+".RandomMap.Delete", p.posStr(fd.Pos()), "delete must move the last key into the hole (updating its back-index), truncate the key slice and delete the map entry; found: "+s)
+			r.Fail("pair/randommap", pkg+".RandomMap.Delete", f.P.posStr(f.Body.Pos()), fmt.Sprintf("delete must move the last key into the hole (back-index updated: %v, slot filled: %v), truncate the key slice (%v) and delete the map entry (%v); resolved stores: %s", okA, okB, okC, okD, strings.Join(seen, "; ")))
 		}
 	}
 	if s, fd := srcOf(p, pkg, "RandomMap", "RandomKey"); fd != nil {
